@@ -20,7 +20,7 @@ for pid in props:
             replay_cmd_template='./check --replay {path}',
             engine='kani-contracts',
             level_claimed=dict(category=P['level'], text=P.get('level_text', P.get('explanation', '')), design_ref='DESIGN.md §5 ' + pid),
-            level_note=P.get('level_note', 'Trusted: Kani/CBMC/rustc, Verus/Z3; core::ptr::{copy,copy_nonoverlapping} as memmove/memcpy; GlobalAlloc contract; Rust ownership rules for safe callers. Domain: len <= cap <= 2^20 per vector, element sizes {0,1,2,3,8,12,16,24,160}; bounded stand-ins are listed separately in the evidence and never counted as proved.'),
+            level_note=P.get('level_note', 'Trusted: Kani/CBMC/rustc, Verus/Z3; core::ptr::{copy,copy_nonoverlapping} as memmove/memcpy; GlobalAlloc contract; Rust ownership rules for safe callers. Domain: symbolic len <= cap <= 2^20 per vector, every usize index/range; element sizes are instantiated, not quantified: quick tier {0,1,2,8,16}, thorough tier adds {3,12,24,160}. The storage backend of the operation contracts is a ghost relocating backend and the memory primitives are replaced by their contracts (copy_bytes proved equivalent to memmove in place; ptr::copy/copy_nonoverlapping trusted; element destructor/clone loops checked separately with a stated bound). Bounded stand-ins are listed separately in the evidence and never counted as proved. exit 2 = undecided.'),
             technique=P.get('technique', 'contract-based deductive verification of the real code: Kani/CBMC contract harnesses (assume pre, call real function, assert post over full symbolic domain) over contract stubs of the memory primitives + Verus lemmas over the contracts'),
         ))
 na = [dict(property_id=p, reason=NA.get(p, 'check not built yet (framework under construction); see DESIGN.md §5')) for p in props if p not in REG.PROPS]
